@@ -386,6 +386,64 @@ fn frame_matrix(e: &Env, tier: Tier, a: &mut Acc) {
     }
 }
 
+/// (a2) a staked-collateral bank: the group admin edits the group's staked settings, then anyone propagates them to
+/// the bank. On a bank whose settings are frozen the propagation is a per-bank configuration instruction like the
+/// others: weights, oracle, risk tier and collateral-value cap stay (the deposit limit may follow).
+fn staked_frozen_matrix(e: &Env, a: &mut Acc) {
+    use marginfi::instructions::StakedSettingsEditConfig as Ed;
+    let wi = |x: f64| -> Option<marginfi_type_crate::types::WrappedI80F48> { Some(I80F48::from_num(x).into()) };
+    let none = || Ed { oracle: None, asset_weight_init: None, asset_weight_maint: None, deposit_limit: None, total_asset_value_init_limit: None, oracle_max_age: None, risk_tier: None };
+    let bk = e.w.banks[1].key;
+    let edits: Vec<(&str, Ed)> = vec![
+        ("nothing", none()),
+        ("deposit_limit", Ed { deposit_limit: Some(777_000_000), ..none() }),
+        ("weights", Ed { asset_weight_init: wi(0.25), asset_weight_maint: wi(0.35), ..none() }),
+        ("init_limit", Ed { total_asset_value_init_limit: Some(12_345), ..none() }),
+        ("max_age", Ed { oracle_max_age: Some(45), ..none() }),
+        ("oracle", Ed { oracle: Some(e.w.banks[0].oracle.unwrap()), ..none() }),
+        ("isolated", Ed { risk_tier: Some(RiskTier::Isolated), asset_weight_init: wi(0.0), asset_weight_maint: wi(0.0), ..none() }),
+    ];
+    for frozen in [false, true] {
+        for (n, ed) in &edits {
+            let mut s0 = golden::staked_prep(e);
+            if frozen {
+                world::edit_bank(&mut s0, &bk, |b| b.flags |= FREEZE_SETTINGS);
+            }
+            let r = process_tx(&mut s0, &Tx::one(ix::edit_staked_settings(e.w.group, e.w.roles.admin, Ed { oracle: ed.oracle, asset_weight_init: ed.asset_weight_init, asset_weight_maint: ed.asset_weight_maint, deposit_limit: ed.deposit_limit, total_asset_value_init_limit: ed.total_asset_value_init_limit, oracle_max_age: ed.oracle_max_age, risk_tier: ed.risk_tier }), &[e.w.roles.admin]));
+            if !r.ok() {
+                *a.classes.entry(format!("staked_propagation:{n}:edit_refused")).or_insert(0) += 1;
+                continue;
+            }
+            let st: marginfi_type_crate::types::StakedSettings = world::read_pod(s0.data(&ix::staked_settings_key(&e.w.group)));
+            let cfg = world::bank(&s0, &bk).config;
+            for (sn, signer) in [("stranger", crate::act::stranger()), ("group_admin", e.w.roles.admin)] {
+                let mut t = s0.clone();
+                let r = process_tx(&mut t, &Tx::one(ix::propagate_staked_settings(e.w.group, bk, vec![ix::ro(st.oracle), ix::ro(cfg.oracle_keys[1]), ix::ro(cfg.oracle_keys[2])]), &[signer]));
+                a.cells += 1;
+                let d = diff(&s0, &t, &bk);
+                *a.classes.entry(format!("staked_propagation:{}:{}:{}", if frozen { "frozen" } else { "unfrozen" }, n, if !r.ok() { "refused" } else if d.bank_regions.is_empty() { "ok:no_change" } else { "ok:wrote" })).or_insert(0) += 1;
+                if !r.ok() {
+                    continue;
+                }
+                let rep = json!({"model": "C12a2", "frozen": frozen, "case": format!("staked_propagation:{n}:{sn}")});
+                for k in &d.others {
+                    a.found.push(Found { clause: "C12.role_touches_only_its_accounts".into(), sig: format!("staked_propagation:{}", world::label_of(k)), detail: format!("propagate_staked_settings changed account {}", world::label_of(k)), replay: rep.clone() });
+                }
+                if d.flag_bits_changed != 0 {
+                    a.found.push(Found { clause: "C12.role_writes_only_its_flags".into(), sig: "staked_propagation:bits".into(), detail: format!("propagate_staked_settings changed bank flag bits {:#b}", d.flag_bits_changed), replay: rep.clone() });
+                }
+                if frozen {
+                    for reg in &d.bank_regions {
+                        if FROZEN_FORBIDDEN.contains(reg) {
+                            a.found.push(Found { clause: "C12.frozen_settings_stay".into(), sig: format!("staked_propagation:{:?}", reg), detail: format!("propagate_staked_settings (after edit_staked_settings {n}, sent by {sn}) changed {:?} of a staked-collateral bank whose settings are frozen", reg), replay: rep.clone() });
+                        }
+                    }
+                }
+            }
+        }
+    }
+}
+
 /// (b) freeze is absorbing under every admin sequence up to the depth bound
 fn freeze_bfs(e: &Env, depth: usize, a: &mut Acc) -> (u64, u64) {
     let mut states = 0u64;
@@ -621,6 +679,7 @@ pub fn run(tier: Tier) -> Outcome {
     let e = golden::build_env();
     let mut a = Acc { cells: 0, classes: BTreeMap::new(), found: vec![], samples: vec![] };
     frame_matrix(&e, tier, &mut a);
+    staked_frozen_matrix(&e, &mut a);
     let (fs, ft) = freeze_bfs(&e, if tier == Tier::Quick { 2 } else { 3 }, &mut a);
     let (ds, dt) = deleverage(&e, tier, &mut a);
     let mut o = Outcome { level: "exploration".into(), ..Default::default() };
